@@ -1438,8 +1438,17 @@ where
             return;
         };
 
-        let props_types = self.extract_props_type(maybe_setup);
-        let emits_types = self.extract_emits_type(maybe_setup);
+        // nothing is derived (and no helper imported) for an option the user already wrote
+        let props_types = if can_inject_define_component_option(call_expr, "props") {
+            self.extract_props_type(maybe_setup)
+        } else {
+            None
+        };
+        let emits_types = if can_inject_define_component_option(call_expr, "emits") {
+            self.extract_emits_type(maybe_setup)
+        } else {
+            None
+        };
         if let Some(prop_types) = props_types {
             inject_define_component_option(call_expr, "props", prop_types);
         }
@@ -1504,25 +1513,34 @@ fn is_option_named(prop: &PropOrSpread, name: &str) -> bool {
     }
 }
 
-fn inject_define_component_option(call: &mut CallExpr, name: &'static str, value: Expr) {
-    // a spread among the first two arguments: the argument list is left alone
+/// Whether `name` may be added to the options of this `defineComponent` call: not when a spread
+/// is among the first two arguments, and not when the user already wrote that option.
+fn can_inject_define_component_option(call: &CallExpr, name: &str) -> bool {
     if call.args.iter().take(2).any(|arg| arg.spread.is_some()) {
+        return false;
+    }
+    match call.args.get(1).map(|options| &*options.expr) {
+        Some(Expr::Object(object)) => !object.props.iter().any(|prop| is_option_named(prop, name)),
+        _ => true,
+    }
+}
+
+fn inject_define_component_option(call: &mut CallExpr, name: &'static str, value: Expr) {
+    if !can_inject_define_component_option(call, name) {
         return;
     }
 
     let options = call.args.get_mut(1);
     match options.map(|options| &mut *options.expr) {
         Some(Expr::Object(object)) => {
-            if !object.props.iter().any(|prop| is_option_named(prop, name)) {
-                let prop = PropOrSpread::Prop(Box::new(Prop::KeyValue(KeyValueProp {
-                    key: PropName::Ident(quote_ident!(name)),
-                    value: Box::new(value),
-                })));
-                // options the user spreads into the object must win over the injected one
-                match object.props.iter().position(|prop| prop.is_spread()) {
-                    Some(index) => object.props.insert(index, prop),
-                    None => object.props.push(prop),
-                }
+            let prop = PropOrSpread::Prop(Box::new(Prop::KeyValue(KeyValueProp {
+                key: PropName::Ident(quote_ident!(name)),
+                value: Box::new(value),
+            })));
+            // options the user spreads into the object must win over the injected one
+            match object.props.iter().position(|prop| prop.is_spread()) {
+                Some(index) => object.props.insert(index, prop),
+                None => object.props.push(prop),
             }
         }
         Some(..) => {
